@@ -232,9 +232,9 @@ def check_case(case, res, direct_cap=250, count=True):
     try:
         built = Built(case, attackers=False)
     except Exception as exc:
-        res.count('case-build-failed')
-        res.notes.setdefault('build-failure', repr(exc)[:300])
-        return None
+        # a well-formed language / valid model must be accepted
+        return ('build:raised-%s' % type(exc).__name__,
+                'building the language graph / classes / model for a well-formed case raised %r' % (exc,))
     lang, am = built.lang, built.am
     mon = CaseMonitor(case, res)
     mon.install(built)
